@@ -7,6 +7,8 @@
 """
 from fractions import Fraction
 
+import random
+
 import numpy as np
 
 from harness import bootstage as S
@@ -391,7 +393,7 @@ def epsilon_stage(run, driver, n):
     C.use_repo()
     from elexmodel.models.BootstrapElectionModel import BootstrapElectionModel
 
-    rng = run.rng
+    rng = random.Random(f"c06-epsilon-{run.seed}-{n}")      # own generator: the older streams keep their cases
     model = BootstrapElectionModel({"features": ["baseline_normalized_margin"]})
     for _ in range(n):
         k = rng.randint(1, 6)
@@ -425,8 +427,41 @@ def epsilon_stage(run, driver, n):
             run.traces += 1
 
 
+def interp_stage(run, driver, n):
+    """`np.interp` the way the stratum distributions call it (ppf: left / right = smallest / largest fitted quantile; cdf: right = 1) on
+    dyadic knots, queried at knots, between them and outside, against the model `BootErr.interp`"""
+    if driver is None:
+        return
+    rng = random.Random(f"c06-interp-{run.seed}-{n}")
+    for _ in range(n):
+        k = rng.randint(1, 7)
+        xp = sorted(rng.sample(range(-64, 65), k))
+        xp = [v / 64 for v in xp]
+        fp = [rng.randint(-128, 128) / 32 for _ in range(k)]
+        if rng.random() < 0.5:
+            left, right = min(fp), max(fp)       # ppf_creator
+        else:
+            left, right = fp[0], 1.0             # cdf_creator (left defaults to fp[0])
+        xs = xp[:3] + [rng.randint(-96, 96) / 64 for _ in range(5)] + [xp[-1], xp[-1] + 0.5, xp[0] - 0.5]
+        case = {"interp_stage": True, "xp": xp, "fp": fp, "left": left, "right": right, "xs": xs}
+        run.case(case, k >= 3)
+        run.count("np.interp")
+        got = [float(v) for v in np.interp(np.asarray(xs), np.asarray(xp), np.asarray(fp), left, right)]
+        m = driver.run([{"op": "boot.interp", "xs": [C.rat(v) for v in xs], "xp": [C.rat(v) for v in xp], "fp": [C.rat(v) for v in fp],
+                         "left": C.rat(left), "right": C.rat(right)}])[0]
+        want = [float(C.unrat(v)) for v in m]
+        lo, hi = min(fp + [left, right]), max(fp + [left, right])
+        if any(not (lo - 1e-12 <= g <= hi + 1e-12) for g in got):
+            run.diff("np.interp leaves the range of its values (ppf_within_fitted_range)", input=case, impl=got, model=[lo, hi])
+        elif any(abs(g - w) > 1e-9 * max(1.0, abs(w)) for g, w in zip(got, want)):
+            run.diff("np.interp vs the model", input=case, impl=got, model=want)
+        else:
+            run.traces += 1
+
+
 def explore(run, driver, budget):
     run.info["rule"] = RULE
+    interp_stage(run, driver, {"quick": 60, "thorough": 2000, "search": 300}[budget])
     bounds_stage(run, driver, {"quick": 60, "thorough": 3000, "search": 400}[budget])
     epsilon_stage(run, driver, {"quick": 60, "thorough": 2000, "search": 300}[budget])
     if budget == "quick":
@@ -456,7 +491,7 @@ def replay(run, driver, payload):
     if c.get("grid") == "ranks":
         rank_grid(run, driver, [c["B"]], [c["alpha"]])
         return
-    if c.get("bounds_stage") or c.get("api_boot") or c.get("clip_stage") or c.get("epsilon_stage"):
+    if c.get("bounds_stage") or c.get("api_boot") or c.get("clip_stage") or c.get("epsilon_stage") or c.get("interp_stage"):
         # the generators are driven by the seed and pass recorded in the replay file (set by main): the same pass is re-run
         explore(run, driver, run.budget)
         return
